@@ -169,6 +169,15 @@ def uf_cossin(x):
     key = ("cossin", S.ENV.serial, frozenset(p.t.items()))
     if key in S._PURE:
         return S._PURE[key]
+    if len(p.t) == 1:
+        (m, c), = p.t.items()
+        if c == 1 and len(m) == 1 and m[0][1] == 1 and S._DEFS.get(m[0][0], ("",))[0] == "angle":
+            # cos / sin of angle(z) are algebraic: re/|z| and im/|z|
+            _, re, im = S._DEFS[m[0][0]]
+            r = S.sqrt(S.add(S.mul(re, re), S.mul(im, im)))
+            out = (S.topoly(S.div(re, r)), S.topoly(S.div(im, r)))
+            S._PURE[key] = out
+            return out
     # two fresh reals per syntactically distinct argument (an over-approximation of the two functions: sound for
     # 'holds'; a spurious model is filtered by the replay)
     c, sn = S.fresh_real("cos"), S.fresh_real("sin")
@@ -970,9 +979,32 @@ def h_conj(func, args, kwargs):
     return from_arr(vec(lambda v: S.Cx(S.tocx(v).re, S.neg(S.tocx(v).im)), t.arr()), t.dtype)
 
 
+def s_angle(v):
+    """angle of a scalar: concrete values exactly; a symbolic complex z gives an opaque real theta(z) whose only
+    algebraic content is exposed by uf_cossin: cos(theta) = re/|z|, sin(theta) = im/|z| (and d theta = (re d im -
+    im d re)/|z|^2 in sym.deriv).  Used by the C19 gradient clause (polar mode of NonlinearChannel)."""
+    if not S._is_sym(v):
+        c = complex(v)
+        return math.atan2(c.imag, c.real)
+    if isinstance(v, S.Cases):
+        return v.map(s_angle)
+    if not isinstance(v, S.Cx):
+        raise NotEncodable("angle of a symbolic real (0 or pi)")
+    pre, pim = S.topoly(v.re), S.topoly(v.im)
+    key = ("angle", S.ENV.serial, frozenset(pre.t.items()), frozenset(pim.t.items()))
+    if key in S._PURE:
+        return S._PURE[key]
+    th = S.topoly(S.fresh_real("angle"))
+    S.add_defined(S.zbool(S.gt(S.add(S.mul(v.re, v.re), S.mul(v.im, v.im)), S.ENV.kink_margin)))
+    S._DEFS[S._single_atom(th)] = ("angle", v.re, v.im)
+    S._PURE[key] = th
+    return th
+
+
 @handler("aten.angle.default")
 def h_angle(func, args, kwargs):
-    raise NotEncodable("angle (atan2) of a symbolic value")
+    mout = run_meta(func, args, kwargs)
+    return out_like(vec(s_angle, A(args[0])), mout)
 
 
 @handler("aten.polar.default")
